@@ -58,6 +58,10 @@ CHECKS = {
          "22 offences (wrong fixed sizes, oversized frame, CONTINUATION sequencing, PING/SETTINGS on a stream, invalid SETTINGS values, connection window overflow / zero increment, HPACK errors, even id, idle id, lower id) x 0-2 requests dispatched before x handlers returned / still running x trailing traffic (none, a new request, 140 PINGs, a half frame, 140 DATA or 140 requests already on the wire behind the offending frame) x peer silent / closes / stopped reading; idle-timeout firing at every point of a request's life. Oracle: GOAWAY or close with an allowed code; every GOAWAY's last-stream-id >= highest stream ever dispatched; nothing dispatched after the error; after handlers return and armed virtual timers fire ServeConn has returned and no goroutine is left.",
          "'Bounded time' = after finitely many virtual timer firings. Timer-vs-request races at lock granularity are C19's.",
          "DESIGN.md §4 C10"),
+ "C17": ("exhaustive fault enumeration (ELX) on the real ServeConn: every cut offset of a recorded client byte stream, every single structural mutation, all short frame-soup sequences, every failing transport write",
+         "A recorded 17-frame client conversation (CONTINUATION, padding, priority, trailers, WINDOW_UPDATE, PING, RST_STREAM) cut at every byte with handlers returning before or after the cut; every single mutation (delete/duplicate/swap frame, each flag bit, each type 0..10, stream id 0/+2/-2/even, length +-1; a deterministic slice of pairs in thorough); every sequence of <= 3 frames from a 28-frame soup with malformed sizes (and depth 4 over the 11 frames that keep a connection alive in thorough); the server's k-th Write failing for k=1..14; a peer that stops reading. Oracle: no recover() line, no unrecovered panic, ServeConn returns once the peer is gone and handlers returned and virtual timers fired, no goroutine left, pool tracker silent (double release, context recycled while its handler runs).",
+         "Canonical internal schedule between events; teardown races at lock granularity are C19's.",
+         "DESIGN.md §4 C17"),
 }
 
 NOT_YET = "check not built yet (work in progress; see DESIGN.md §6 build order)"
